@@ -300,6 +300,14 @@ class CircuitTemplate(AbstractBaseTemplate):
                 warn(PyRatesWarning(f'Variable {var} has not been found on operator {op} of node {node[0]}.'))
             n_nodes = len(target_nodes)
             for i, n in enumerate(target_nodes):
+                if n in self.populations:
+                    # a population takes its values from its `params` (scalar or one value per unit); work on a copy,
+                    # since the same `PopulationTemplate` object may be used by other circuits
+                    pop = copy(self.populations[n])
+                    pop.params = dict(pop.params)
+                    pop.params[f"{op}/{var}"] = val
+                    self.populations[n] = pop
+                    continue
                 node_temp = deepcopy(self.get_node_template(n))
                 val_tmp = val[i] if hasattr(val, 'shape') and sum(val.shape) == n_nodes else val
                 node_temp.update_var(op=op, var=var, val=val_tmp)
